@@ -31,6 +31,7 @@ MainRegTy == <<"i", "i", "i", "i", "i", "i", "i", "i", "i", "i", "i", "d", "d", 
 Reg(r) == [k |-> "reg", r |-> r]
 Imm(w) == [k |-> "imm", w |-> w]
 DRef == [k |-> "dref", b |-> 2]       \* address of the module's bss item gdat (memory block 2)
+DRef3 == [k |-> "dref", b |-> 3]      \* address of the data section gd: data i32 11, -2, 2147483647 ; (anonymous) data i64 5
 Mem(ty, disp, base, idx, scale) == [k |-> "mem", ty |-> ty, disp |-> disp, base |-> base, idx |-> idx, scale |-> scale, al |-> ""]
 (* memory operand with an alias name: accesses with different non-empty alias names are promised not to overlap *)
 MemA(ty, disp, al) == [k |-> "mem", ty |-> ty, disp |-> disp, base |-> RBUF, idx |-> 0, scale |-> 1, al |-> al]
@@ -175,7 +176,7 @@ Fmts == {"d", "f", "ld"}
 Pfx(fmt) == fmt
 
 KindsInt == {"ibin", "iun", "shift", "div", "br2", "br1", "loop", "ovf", "switch", "callg1", "callg2", "ext", "alloca", "jmpi", "idx",
-             "pld", "pst", "alloca2", "gcall"}
+             "pld", "pst", "alloca2", "gcall", "dload"}
 KindsFp == {"fbin", "fcmp", "fbr", "i2f", "f2i", "fmovm", "f2f", "callg3"}
 (* "link": the constructs MIR_link rewrites (calls to inline, allocas, jumps and branch chains, memory operands) *)
 KindsLink == {"callg1", "callg2", "callg3", "ext", "alloca", "br2", "br1", "loop", "switch", "ibin", "idx", "jmpi", "ovf", "calla",
@@ -227,6 +228,7 @@ Holes(k) ==
     [] k = "pld" -> <<"ireg", "imemty", "preg">>
     [] k = "pst" -> <<"imemty", "preg", "isrc">>
     [] k = "alloca2" -> <<"ireg", "isrc", "subld">>
+    [] k = "dload" -> <<"ireg", "dmem">>
     [] k = "callg12" -> <<"isrc">>
     [] k = "callg13" -> <<"dsrc", "dsrc", "dsrc">>
     [] k = "callg14" -> <<"ireg", "isrc", "isrc", "isrc">>
@@ -251,6 +253,8 @@ Dom(h) ==
     [] h = "fdst" -> FDst(CurFmt) [] h = "fsrc" -> FSrc(CurFmt)
     [] h = "i2fop" -> {"i2", "ui2"}
     [] h = "preg" -> PRegs
+    [] h = "dmem" -> {Mem("i32", 0, RTMP, 0, 1), Mem("i32", 4, RTMP, 0, 1), Mem("u32", 8, RTMP, 0, 1), Mem("i64", 12, RTMP, 0, 1),
+                      Mem("u8", 1, RTMP, 0, 1), Mem("i16", 6, RTMP, 0, 1)}
     [] h = "dsrc" -> {Reg(r) : r \in DRegs}
     [] h = "subld" -> {Mem("u8", 12, PA, 0, 1), Mem("u16", 14, PA, 0, 1), Mem("i32", 12, PA, 0, 1), Mem("u8", 9, PA, 0, 1), Mem("i16", 10, PA, 0, 1)}
 
@@ -304,6 +308,8 @@ Render(k, v) ==
                        InsIn("mov", Mem("i64", 0, PA, 0, 1), <<v[2]>>), InsIn("mov", Mem("i64", 8, PA, 0, 1), <<Imm(FromNat(11))>>),
                        [op |-> "call", callee |-> [k |-> "func", f |-> 12], res |-> <<v[1]>>, args |-> <<BlkArg("blk16", PA)>>],
                        InsIn("add", v[1], <<v[1], Mem("i64", 8, PA, 0, 1)>>), InsIn("xor", v[1], <<v[1], Mem("i64", 0, PA, 0, 1)>>)>>
+    \* read-only data section of the module: a named data item continued by an anonymous one
+    [] k = "dload" -> <<InsIn("mov", Reg(RTMP), <<DRef3>>), InsIn("mov", v[1], <<v[2]>>)>>
     [] k = "callg12" -> <<[op |-> "call", callee |-> [k |-> "func", f |-> 13], res |-> <<Reg(14)>>, args |-> <<v[1]>>]>>
     [] k = "callg13" -> <<[op |-> "call", callee |-> [k |-> "func", f |-> 14], res |-> <<Reg(12)>>,
                            args |-> <<v[1], v[2], v[3], v[1], v[2], v[3], v[1], v[2], v[3]>>]>>
@@ -392,9 +398,12 @@ Finalize ==
   /\ phase' = "run"
   /\ prog' = [funcs |-> <<MainFunc, G1, G2, G3, G4, G5, G6, G7, G8, G9, G10, G11, G12, G13, G14>>]
   /\ mem' = <<[sz |-> BufSize, live |-> TRUE, cells |-> InitBuf],
-              [sz |-> 64, live |-> TRUE, cells |-> [i \in 1..64 |-> ByteC(0)]]>>          \* block 2: the module's bss item gdat
+              [sz |-> 64, live |-> TRUE, cells |-> [i \in 1..64 |-> ByteC(0)]],          \* block 2: the module's bss item gdat
+              [sz |-> 20, live |-> TRUE,                                                    \* block 3: data section gd
+               cells |-> [i \in 1..20 |-> ByteC((<<11, 0, 0, 0>> \o <<254, 255, 255, 255>> \o <<255, 255, 255, 127>>
+                                                 \o <<5, 0, 0, 0, 0, 0, 0, 0>>)[i])]]>>
   /\ frames' = <<[f |-> 1, pc |-> 1, regs |-> [r \in 1..Len(MainRegTy) |-> IF r = 1 THEN PtrV(1, 0) ELSE UndefV],
-                  base |-> 2, ovf |-> NoOvf]>>
+                  base |-> 3, ovf |-> NoOvf]>>
   /\ status' = "run"
   /\ UNCHANGED <<log, why, result, steps, slot, cur, body, slotpc, inputs, haveA>>
 
